@@ -187,9 +187,163 @@ def gen_lean():
             f"def maxInt64 : Int := {mx.group(1)}",
             f"def kMin : Nat := {kmin.group(1)}",
             f"def windowMin : Nat := {wmin.group(1)}",
+            _gen_structure(),
             "end BiotiteModel.Gen.C10", ""]
     return {"BiotiteModel/Gen/C10.lean": "\n".join(body)}
 
+
+
+# ---------------------------------------------------------------- structural facts regenerated from the .pyx text (tie7)
+# (group, lean name, file, qualified function, regex selecting logical lines; None = returns; "." = whole body)
+GEN_SPEC = [
+    ("Kmeralphabet", "kalInitSpacing", "kmeralphabet", "KmerAlphabet.__init__", r"self\._spacing|_radix_multiplier|base_alph_len"),
+    ("Kmeralphabet", "kalFuse", "kmeralphabet", "KmerAlphabet.fuse", r"kmer_code =|return|np\.atleast"),
+    ("Kmeralphabet", "kalSplit", "kmeralphabet", "KmerAlphabet._split", r"symbol_code|code -=|val ="),
+    ("Kmeralphabet", "kalArrayLength", "kmeralphabet", "KmerAlphabet.kmer_array_length", r"max_offset =|return|if self\._spacing"),
+    ("Kmeralphabet", "kalCreate", "kmeralphabet", "KmerAlphabet.create_kmers", "."),
+    ("Kmeralphabet", "kalContinuous", "kmeralphabet", "KmerAlphabet._create_continuous_kmers",
+     r"end_radix_multiplier|alphabet_length =|kmer \+=|kmer = |kmers\[|prev_kmer =|code = seq_code|for i in|np\.empty"),
+    ("Kmeralphabet", "kalSpaced", "kmeralphabet", "KmerAlphabet._create_spaced_kmers",
+     r"max_offset =|kmer \+=|kmer = |kmers\[|code = seq_code|offset = |for [ij] in|np\.empty"),
+    ("Kmeralphabet", "kalEq", "kmeralphabet", "KmerAlphabet.__eq__", "."),
+    ("Kmeralphabet", "kalLen", "kmeralphabet", "KmerAlphabet.__len__", "."),
+    ("Kmeralphabet", "kalEncodeDecode", "kmeralphabet", "KmerAlphabet.encode", "."),
+    ("Kmeralphabet", "kalDecode", "kmeralphabet", "KmerAlphabet.decode", "."),
+    ("Kmeralphabet", "kalToArrayForm", "kmeralphabet", "_to_array_form", "."),
+    ("TableBuild", "ktCinit", "kmertable", "KmerTable.__cinit__", r"np\.zeros|self\._k ="),
+    ("TableBuild", "bktCinit", "kmertable", "BucketKmerTable.__cinit__", r"np\.zeros|_n_buckets|self\._k ="),
+    ("TableBuild", "ktFromSequences", "kmertable", "KmerTable.from_sequences", "."),
+    ("TableBuild", "bktFromSequences", "kmertable", "BucketKmerTable.from_sequences", "."),
+    ("TableBuild", "ktFromKmers", "kmertable", "KmerTable.from_kmers", "."),
+    ("TableBuild", "bktFromKmers", "kmertable", "BucketKmerTable.from_kmers", "."),
+    ("TableBuild", "ktFromSelection", "kmertable", "KmerTable.from_kmer_selection", "."),
+    ("TableBuild", "bktFromSelection", "kmertable", "BucketKmerTable.from_kmer_selection", "."),
+    ("TableBuild", "ktFromTables", "kmertable", "KmerTable.from_tables", r"^(?!cdef)"),
+    ("TableBuild", "bktFromTables", "kmertable", "BucketKmerTable.from_tables", r"^(?!cdef)"),
+    ("TableBuild", "ktFromPositions", "kmertable", "KmerTable.from_positions",
+     r"length = |kmer_ptr\[0\] = |kmer_ptr \+=|ptr_array\[kmer\]|continue|positions = |\)\[0\] = length|for "),
+    ("TableBuild", "ktCountKmers", "kmertable", "KmerTable._count_kmers", r"count_array\[|kmer = |for "),
+    ("TableBuild", "ktCountMasked", "kmertable", "KmerTable._count_masked_kmers", r"count_array\[|kmer = |for |if mask"),
+    ("TableBuild", "bktCountKmers", "kmertable", "BucketKmerTable._count_kmers", r"count_array\[|kmer = |for "),
+    ("TableBuild", "bktCountMasked", "kmertable", "BucketKmerTable._count_masked_kmers", r"count_array\[|kmer = |for |if mask"),
+    ("TableBuild", "ktAddKmers", "kmertable", "KmerTable._add_kmers", r"current_size|kmer_ptr|kmer = |for |if mask\["),
+    ("TableBuild", "bktAddKmers", "kmertable", "BucketKmerTable._add_kmers", r"current_size|bucket_ptr|kmer_val_ptr|kmer = |for |if mask\["),
+    ("TableBuild", "ktAddSelection", "kmertable", "KmerTable._add_kmer_selection", r"current_size|kmer_ptr|kmer = |seq_pos = |for "),
+    ("TableBuild", "bktAddSelection", "kmertable", "BucketKmerTable._add_kmer_selection", r"current_size|bucket_ptr|kmer_val_ptr|kmer = |seq_pos = |for "),
+    ("TableBuild", "countTableEntries", "kmertable", "_count_table_entries", r"^(?!cdef)"),
+    ("TableBuild", "initCArrays", "kmertable", "_init_c_arrays", r"^(?!cdef)"),
+    ("TableBuild", "appendEntries", "kmertable", "_append_entries", r"^(?!cdef)"),
+    ("TableBuild", "equalCArrays", "kmertable", "_equal_c_arrays", r"^(?!cdef)"),
+    ("TableBuild", "pickleCArrays", "kmertable", "_pickle_c_arrays", r"^(?!cdef .*[a-z]$)"),
+    ("TableBuild", "unpickleCArrays", "kmertable", "_unpickle_c_arrays", r"^(?!cdef .*[a-z]$)"),
+    ("TableBuild", "computeRefIds", "kmertable", "_compute_ref_ids", "."),
+    ("TableBuild", "computeMasks", "kmertable", "_compute_masks", "."),
+    ("TableBuild", "computeAlphabet", "kmertable", "_compute_alphabet", "."),
+    ("TableBuild", "checkPositionShape", "kmertable", "_check_position_shape", "."),
+    ("TableBuild", "checkSameAlphabet", "kmertable", "_check_same_kmer_alphabet", "."),
+    ("TableBuild", "checkSameBuckets", "kmertable", "_check_same_buckets", "."),
+    ("TableQuery", "ktMatch", "kmertable", "KmerTable.match",
+     r"if kmer_mask\[i\]|kmer_ptr = |for |matches\[match_i|similar_kmers\(|if similarity_rule|sim_kmer = |kmers = self|_prepare_mask|kmer = kmers|^else|^self\._kmer_alph"),
+    ("TableQuery", "bktMatch", "kmertable", "BucketKmerTable.match",
+     r"if kmer_mask\[i\]|bucket_ptr = |bucket = |for |while |if self_kmer|matches\[match_i|bucket_ptr \+=|similar_kmers\(|if similarity_rule|sim_kmer = |kmers = self|_prepare_mask|other_kmer = |array_stop = |^else|^self\._kmer_alph"),
+    ("TableQuery", "ktMatchTable", "kmertable", "KmerTable.match_table",
+     r"kmer_ptr = |for |matches\[match_i|similar_kmers\(|if similarity_rule|sim_kmer = |_check_same|if .*!= NULL|^else|^self\._kmer_alph"),
+    ("TableQuery", "bktMatchTable", "kmertable", "BucketKmerTable.match_table",
+     r"bucket_ptr = |sim_bucket = |for |if self_kmer|_kmer = |matches\[match_i|similar_kmers\(|if similarity_rule|sim_kmer = |_check_same|if .*!= NULL|^else|^self\._kmer_alph"),
+    ("TableQuery", "ktMatchSelection", "kmertable", "KmerTable.match_kmer_selection",
+     r"_check_kmer_bounds|astype|kmer_ptr = |for |matches\[match_i|kmer = |seq_pos = "),
+    ("TableQuery", "bktMatchSelection", "kmertable", "BucketKmerTable.match_kmer_selection",
+     r"_check_kmer_bounds|astype|bucket_ptr = |bucket = |for |while |if self_kmer|matches\[match_i|bucket_ptr \+=|other_kmer = |seq_pos = |array_stop = "),
+    ("TableQuery", "ktCount", "kmertable", "KmerTable.count", r"^(?!cdef)"),
+    ("TableQuery", "bktCount", "kmertable", "BucketKmerTable.count", r"^(?!cdef)"),
+    ("TableQuery", "ktGetKmers", "kmertable", "KmerTable.get_kmers", r"^(?!cdef [a-z0-9]+ [a-z_]+$)"),
+    ("TableQuery", "bktGetKmers", "kmertable", "BucketKmerTable.get_kmers", r"^(?!cdef [a-z0-9]+\*? [a-z_]+$)"),
+    ("TableQuery", "ktGetItem", "kmertable", "KmerTable.__getitem__", r"^(?!cdef)"),
+    ("TableQuery", "bktGetItem", "kmertable", "BucketKmerTable.__getitem__", r"^(?!cdef)"),
+    ("TableQuery", "ktContains", "kmertable", "KmerTable.__contains__", "."),
+    ("TableQuery", "ktIter", "kmertable", "KmerTable.__iter__", "."),
+    ("TableQuery", "ktReversed", "kmertable", "KmerTable.__reversed__", "."),
+    ("TableQuery", "ktLen", "kmertable", "KmerTable.__len__", "."),
+    ("TableQuery", "ktEq", "kmertable", "KmerTable.__eq__", r"^(?!cdef)"),
+    ("TableQuery", "bktEq", "kmertable", "BucketKmerTable.__eq__", r"^(?!cdef)"),
+    ("TableQuery", "ktState", "kmertable", "KmerTable.__getnewargs_ex__", "."),
+    ("TableQuery", "bktState", "kmertable", "BucketKmerTable.__getnewargs_ex__", "."),
+    ("TableQuery", "toString", "kmertable", "_to_string", "."),
+    ("TableQuery", "checkKmerBounds", "kmertable", "_check_kmer_bounds", "."),
+    ("TableQuery", "checkMultipleKmerBounds", "kmertable", "_check_multiple_kmer_bounds", "."),
+    ("Masks", "prepareMask", "kmertable", "_prepare_mask", "."),
+    ("Masks", "toKmerMask", "kmertable", "_to_kmer_mask", r"^(?!cdef [a-z0-9]+(\[:\])? [a-z_, ]+$)"),
+    ("Selector", "minimize", "selector", "_minimize", r"^(?!cdef [a-z0-9]+(\[:\])? [a-z_, ]+$)"),
+    ("Selector", "forwardArgcummin", "selector", "chunk_wise_forward_argcummin", r"^(?!cdef [a-z0-9]+ [a-z_, ]+$)"),
+    ("Selector", "reverseArgcummin", "selector", "chunk_wise_reverse_argcummin", r"^(?!cdef [a-z0-9]+ [a-z_, ]+$)"),
+    ("Selector", "minimizerInit", "selector", "MinimizerSelector.__init__", "."),
+    ("Selector", "minimizerSelect", "selector", "MinimizerSelector.select", "."),
+    ("Selector", "minimizerFromKmers", "selector", "MinimizerSelector.select_from_kmers", "."),
+    ("Selector", "syncmerInit", "selector", "SyncmerSelector.__init__", "."),
+    ("Selector", "syncmerSelect", "selector", "SyncmerSelector.select", "."),
+    ("Selector", "syncmerFromKmers", "selector", "SyncmerSelector.select_from_kmers", r"^(?!cdef)"),
+    ("Selector", "syncmerFilter", "selector", "SyncmerSelector._filter_syncmer_pos", "."),
+    ("Selector", "cachedInit", "selector", "CachedSyncmerSelector.__init__", "."),
+    ("Selector", "cachedSelect", "selector", "CachedSyncmerSelector.select", "."),
+    ("Selector", "cachedFromKmers", "selector", "CachedSyncmerSelector.select_from_kmers", "."),
+    ("Selector", "mincodeInit", "selector", "MincodeSelector.__init__", "."),
+    ("Selector", "mincodeSelect", "selector", "MincodeSelector.select", "."),
+    ("Selector", "mincodeFromKmers", "selector", "MincodeSelector.select_from_kmers", "."),
+    ("Permutation", "randomMin", "permutation", "RandomPermutation.min", "."),
+    ("Permutation", "randomMax", "permutation", "RandomPermutation.max", "."),
+    ("Permutation", "randomPermute", "permutation", "RandomPermutation.permute", "."),
+    ("Permutation", "frequencyInit", "permutation", "FrequencyPermutation.__init__", "."),
+    ("Permutation", "frequencyMin", "permutation", "FrequencyPermutation.min", "."),
+    ("Permutation", "frequencyMax", "permutation", "FrequencyPermutation.max", "."),
+    ("Permutation", "frequencyFromTable", "permutation", "FrequencyPermutation.from_table", "."),
+    ("Permutation", "frequencyPermute", "permutation", "FrequencyPermutation.permute", "."),
+    ("Permutation", "invertMapping", "permutation", "_invert_mapping", r"^(?!cdef [a-z0-9]+ [a-z_]+$)"),
+    ("Similarity", "ruleInit", "kmersimilarity", "ScoreThresholdRule.__init__", "."),
+    ("Similarity", "similarKmers", "kmersimilarity", "ScoreThresholdRule.similar_kmers",
+     r"^(?!cdef (int|int32|int64)(\[:\]|\[:,:\])? [a-z_]+$)"),
+]
+GEN_GROUPS = ["Kmeralphabet", "TableBuild", "TableQuery", "Masks", "Selector", "Permutation", "Similarity"]
+
+
+def _gen_structure():
+    """-> (lean text of the regenerated structural facts, {group: [lean names]})"""
+    from common import paths
+    from props import c10_extract as X
+    d = os.path.join(paths.SRC, "biotite/sequence/align")
+    srcs = {n: X.Source(os.path.join(d, n + ".pyx")) for n in
+            ("kmeralphabet", "kmertable", "selector", "permutation", "kmersimilarity")}
+    out = []
+    for group, name, fname, q, rx in GEN_SPEC:
+        lines = srcs[fname].lines(q, rx)
+        if not lines:
+            raise ValueError(f"{fname}.pyx {q}: no line matches {rx!r} (source changed shape)")
+        out.append(f"/-- `{fname}.pyx` `{q}` -/\ndef {name} : List String := {X.lean_list(lines)}")
+    # signature defaults and parameter order of every function that has parameters besides self, exception classes and
+    # the guard of every raise, in source order
+    defaults, params, errors = [], [], []
+    for fname in ("kmeralphabet", "kmertable", "selector", "permutation", "kmersimilarity"):
+        S = srcs[fname]
+        for q in S.functions:
+            ps = [p_ for p_ in S.params(q) if p_ not in ("self",)]
+            if q.split(".")[-1].startswith("__") and q.split(".")[-1] not in ("__init__", "__cinit__", "__getitem__", "__contains__", "__eq__"):
+                continue
+            if ps:
+                params.append((fname + ":" + q, ps))
+            dv = S.defaults(q)
+            if dv:
+                defaults.append((fname + ":" + q, dv))
+            rs = S.raises(q)
+            if rs:
+                errors.append((fname + ":" + q, list(zip(rs, S.guards(q)))))
+    out.append("/-- default values of the optional parameters (every function of the anchored files that has any) -/\n"
+               "def defaults : List (String × List (String × String)) := [" +
+               ",\n  ".join(f"({X.lean_str(q)}, {X.lean_pairs(dv)})" for q, dv in defaults) + "]")
+    out.append("/-- parameters in positional order -/\ndef params : List (String × List String) := [" +
+               ",\n  ".join(f"({X.lean_str(q)}, {X.lean_list(ps)})" for q, ps in params) + "]")
+    out.append("/-- exception class and guard of every `raise`, per function, in source order (which refusal wins) -/\n"
+               "def errorPaths : List (String × List (String × String)) := [" +
+               ",\n  ".join(f"({X.lean_str(q)}, {X.lean_pairs(er)})" for q, er in errors) + "]")
+    return "\n".join(out)
 
 # ---------------------------------------------------------------- naive reference (used by the oracle only)
 def ref_offsets(k, sp):
